@@ -16,8 +16,29 @@ def showOutcome {α} (f : PixFmt α) : Outcome α → String
   | .ub => "ub"
   | .done file back => hexOf file ++ " | " ++ showRes f back
 
+def encodedOnly {α} : Outcome α → String
+  | .ub => "ub"
+  | .done file _ => hexOf file ++ " | fp same | ss same | of same"
+
 def model (line : String) : String :=
   match words line with
+  | ["dsts", fmt, pix, w, h, hex] =>
+    -- every destination kind receives the same bytes: the model has one encoder
+    let wFixed := pix = "gray1-w" ∨ pix = "gray1-wr"
+    let pix := if pix.startsWith "gray1" then "gray1" else pix
+    match Fmt.parse fmt, Pix.parse pix, w.toNat?, h.toNat? with
+    | some fmt, some pix, some w, some h =>
+      let bs := parseHex hex
+      match fmt, pix with
+      | .bmp, .rgb8 => encodedOnly (rtBmp3 (imgOfBytes rgb8 w h bs))
+      | .bmp, .rgba8 => encodedOnly (rtBmp4 (imgOfBytes rgba8 w h bs))
+      | .pnm, .gray8 => encodedOnly (rtPnm5 (imgOfBytes gray8 w h bs))
+      | .pnm, .rgb8 => encodedOnly (rtPnm6 (imgOfBytes rgb8 w h bs))
+      | .pnm, .gray1 => encodedOnly (rtPnm4Variant wFixed true (imgOfBytes bit8 w h bs))
+      | .targa, .rgb8 => encodedOnly (rtTga3 (imgOfBytes rgb8 w h bs))
+      | .targa, .rgba8 => encodedOnly (rtTga4 (imgOfBytes rgba8 w h bs))
+      | _, _ => "unsupported"
+    | _, _, _, _ => "bad-op"
   | ["rt", fmt, pix, _org, _dev, w, h, hex] =>
     -- gray1[-w][-r]: writer / reader of the tree under test carry the proposed pnm gray1 fix
     let wFixed := pix = "gray1-w" ∨ pix = "gray1-wr"
@@ -56,6 +77,11 @@ def judge (op obs : String) : String :=
   let fail (s : String) := "fail " ++ s
   let o := words obs
   match words op with
+  | ["dsts", _fmt, _pix, _w, _h, _hex] =>
+    -- Spec: the bytes written do not depend on the kind of destination
+    if o = ["ub"] then fail "write-or-read-undefined-behaviour"
+    else if o.any (fun t => t.startsWith "differs") then fail "destinations-agree-byte-for-byte"
+    else if (o.filter (· = "same")).length = 3 then "ok" else fail ("shape:" ++ (obs.take 40).toString)
   | [kind, _fmt, _pix, _org, _dev, w, h, hex] =>
     if kind ≠ "rt" ∧ kind ≠ "rtx" then fail "bad-op" else
     match w.toNat?, h.toNat? with
